@@ -206,6 +206,21 @@ Definition run_Pf (files : list pfile) (events cev : list event) (perms : list (
          of_bool (forallb (fun p => data_eqb base
                     (p_answer_f (pick files (fst p)) (pick events (fst (snd p))) (pick cev (snd (snd p))))) perms)].
 
+(* F case: (F files events (perm ...)) : finder.find + get_setmap observed in process.
+   Answer: ((setmap rows in dict INSERTION order, per member in iteration order the
+   nodes with their lines and platform set), 1 iff invariant under the permutations
+   (files perm, events perm)). *)
+Definition f_answer (files : list pfile) (events : list event) : data :=
+  let it := iter_codebase files in
+  DList [enc_rows (get_setmap events it);
+         of_list (fun f => DList [enc_pset (pf_path f);
+                                  of_list (fun iv => DList [of_list DInt (snd iv); enc_pset (assoc_of events (pf_path f) (fst iv))])
+                                          (number 0 (pf_nodes f))]) it].
+
+Definition run_Ff (files : list pfile) (events : list event) (perms : list (list Z * list Z)) : data :=
+  let base := f_answer files events in
+  DList [base; of_bool (forallb (fun p => data_eqb base (f_answer (pick files (fst p)) (pick events (snd p)))) perms)].
+
 Definition run_C14 (d : data) : data :=
   match d with
   | DList [DStr "T"; rows; perms] =>
@@ -218,6 +233,12 @@ Definition run_C14 (d : data) : data :=
             as_list_of dec_perm3 perms with
       | Some f, Some e, Some c, Some p => run_Pf f e c p
       | _, _, _, _ => bad_case
+      end
+  | DList [DStr "F"; files; events; perms] =>
+      match as_list_of dec_pfile files, as_list_of dec_event events,
+            as_list_of (as_pair (as_list_of as_int) (as_list_of as_int)) perms with
+      | Some f, Some e, Some p => run_Ff f e p
+      | _, _, _ => bad_case
       end
   | _ => bad_case
   end.
